@@ -173,9 +173,16 @@ def oracle_totals(R, tier, seed):
             if res["fwd"] is None or res["rev"] is None:
                 O["ok"] += 1; continue
             scale_of = {o: max([float(np.abs(res["fwd"][(o, w)]).max()) for w in wrt] + [1e-300]) for o in of}
+            # natural size of d o / d w: |o| / |w|.  A total that is analytically zero (CL does not depend on the density) comes out
+            # as round-off (1e-16) in each mode and 1e-13 from differences: such values are compared on the natural scale
+            nat = {}
+            for o in of:
+                for w in wrt:
+                    wo = float(np.abs(np.asarray(prob.get_val(w), dtype=float)).max()); oo = float(np.abs(np.asarray(prob.get_val(o), dtype=float)).max())
+                    nat[(o, w)] = oo / wo if wo > 0 else oo
             bad = {}
             for (o, w), v in res["fwd"].items():
-                e = float(np.abs(v - res["rev"][(o, w)]).max()) / (max(float(np.abs(v).max()), float(np.abs(res["rev"][(o, w)]).max())) + 1e-8 * scale_of[o] + 1e-300)
+                e = float(np.abs(v - res["rev"][(o, w)]).max()) / (max(float(np.abs(v).max()), float(np.abs(res["rev"][(o, w)]).max())) + 1e-8 * scale_of[o] + 1e-6 * nat[(o, w)] + 1e-300)
                 O["worst"] = max(O["worst"], e)
                 if e > 1e-7: bad["fwd-vs-rev d%s/d%s" % (o, w)] = e
             if ref is None:
@@ -185,12 +192,12 @@ def oracle_totals(R, tier, seed):
                     row = 0
                     for o, n in zip(of, sizes):
                         a = np.asarray(res["fwd"][(o, w)]).reshape(n, -1)[:, idxs]; b = Jfd[row:row + n]; row += n
-                        e = float(np.abs(a - b).max()) / (max(float(np.abs(a).max()), float(np.abs(b).max())) + 1e-6 * scale_of[o] + 1e-300)
+                        e = float(np.abs(a - b).max()) / (max(float(np.abs(a).max()), float(np.abs(b).max())) + 1e-6 * scale_of[o] + 1e-4 * nat[(o, w)] + 1e-300)
                         O["worst"] = max(O["worst"], min(e, 1e300))
                         if e > tol: bad["analytic-vs-finite-difference d%s/d%s" % (o, w)] = e
             else:
                 for (o, w), v in res["fwd"].items():
-                    e = float(np.abs(v - ref[(o, w)]).max()) / (max(float(np.abs(v).max()), float(np.abs(ref[(o, w)]).max())) + 1e-8 * scale_of[o] + 1e-300)
+                    e = float(np.abs(v - ref[(o, w)]).max()) / (max(float(np.abs(v).max()), float(np.abs(ref[(o, w)]).max())) + 1e-8 * scale_of[o] + 1e-6 * nat[(o, w)] + 1e-300)
                     if e > 1e-6: bad["%s-vs-default-solver d%s/d%s" % (solver, o, w)] = e
             if bad:
                 # one failure per (relation, function of interest)
